@@ -43,6 +43,11 @@ for pid, (tq, tx) in EXTRA.items():
         CLAIMS[pid]['technique'] += ' + ' + tq
         CLAIMS[pid]['text'] += ' ' + tx
 
+EXTRA3 = {'C02': ' R02.8: unary minus on float/complex is fneg per part, never 0 - x.', 'C05': ' R05.7: StringEqual compares lengths before any data-pointer shortcut.', 'C06': ' Also: in evacuate the X/Y half of a NaN key is taken from the old tophash before a new one is drawn.', 'C07': ' R07.7: runtime.Implements scans the complete method table and rejects a nil dynamic type first; cl.typeArgName qualifies named type arguments by package path; the nil-check-only fast path of TypeAssert is limited to type identity.', 'C09': ' R09.8: no store through a reinterpreting cast in the rewriter; R09.9: in ModeCFunc callbacks of every C function are wrapped.', 'C10': ' R10.10: selectOp.notify sets the flag before it signals.', 'C11': ' R11.9: notifyListNotifyOne compares the tickets under the lock before advancing; R11.10: atomic.AddT returns rmw result + delta from one access.', 'C13': ' R13.11: saveToCache follows every step that completes the recorded link arguments.', 'C14': " R14.7: the synthetic name of a local type keeps its declaration position; R14.8: a descriptor's method table is built after its common fields.", 'C15': ' R15.7: method tables must list exported methods first (known finding F30); R15.8: Value.Field inherits exactly flagStickyRO|flagIndir|flagAddr.', 'C03': " The nil-check-only fast path of TypeAssert is limited to the operand's own type."}
+for pid, tx in EXTRA3.items():
+    if pid in CLAIMS:
+        CLAIMS[pid]['text'] += tx
+
 props = [json.loads(l)['id'] for l in open(os.path.join(VERIF, 'properties.jsonl'))]
 registered = subprocess.run([os.path.join(VERIF, 'bin', 'llgoverif'), 'list'], capture_output=True, text=True).stdout.split()
 
